@@ -429,6 +429,9 @@ fn with_parents(doc: &Doc) -> Vec<(Option<u32>, &Elem)> {
                     out.push((Some(up.id), c));
                     up = c;
                 }
+                if let Some((_, x)) = &e.inline_next {
+                    out.push((parent, x)); // a sibling on the same line
+                }
                 walk(&e.children, Some(e.id), out);
             }
         }
